@@ -68,13 +68,14 @@ const (
 	EMethQ
 	EPkgVarClosure
 	EPkgVarDirect
+	EPkgVarDirectRev // the same package-level declarations in reverse order (zero-value forms first)
 	EFillerType
 	EFillerVar
 	nEncl
 )
 
 var EnclNames = []string{"plain-func", "func-NewT", "func-Alt", "func-NewN", "init", "method-ptrT", "method-valT",
-	"method-ptrN", "method-Q", "pkgvar-closure", "pkgvar-direct", "filler-type", "filler-var"}
+	"method-ptrN", "method-Q", "pkgvar-closure", "pkgvar-direct", "pkgvar-direct-reversed", "filler-type", "filler-var"}
 
 func (e EnclKind) String() string { return EnclNames[e] }
 
@@ -290,6 +291,8 @@ func preludeD(w *lineWriter, m Mix) {
 		w.add(ind + "M  int")
 		mut()
 		w.add(ind + "Ms []int")
+		mut()
+		w.add(ind + "Ma, Mb int") // one @mutable doc comment over two names
 		w.add(ind + "Xs []int")
 		w.add(ind + "Mp map[string]int")
 		w.add(ind + "Next *T")
@@ -542,7 +545,7 @@ func (r *renderer) pre(w *lineWriter, indent string) {
 func (r *renderer) block(w *lineWriter, pkgPath string, bi int, b Block) {
 	file := pkgPath + "/" + FileNames[b.File]
 	r.pre(w, "")
-	if b.Ignore != "" && b.Encl != EPkgVarDirect {
+	if b.Ignore != "" && b.Encl != EPkgVarDirect && b.Encl != EPkgVarDirectRev {
 		w.add(b.Ignore)
 	}
 	ptrR := true
@@ -566,8 +569,26 @@ func (r *renderer) block(w *lineWriter, pkgPath string, bi int, b Block) {
 		w.addf("func (q *Q) m%d(%s) {", bi, r.params(""))
 	case EPkgVarClosure:
 		w.addf("var _ = func(%s) int {", r.params(""))
-	case EPkgVarDirect:
-		for si := range r.spec.Sites {
+	case EPkgVarDirect, EPkgVarDirectRev:
+		order := make([]int, 0, len(r.spec.Sites))
+		if b.Encl == EPkgVarDirectRev {
+			// zero-value declarations of the annotated type first, then everything else in reverse order
+			for k := range r.spec.Sites {
+				if st := &r.spec.Sites[k]; st.Subj == SubjT && len(st.Codes) > 0 && st.Codes[0] == "CTOR03" && st.PkgLevel != "" {
+					order = append(order, k)
+				}
+			}
+			for k := len(r.spec.Sites) - 1; k >= 0; k-- {
+				if st := &r.spec.Sites[k]; !(st.Subj == SubjT && len(st.Codes) > 0 && st.Codes[0] == "CTOR03" && st.PkgLevel != "") {
+					order = append(order, k)
+				}
+			}
+		} else {
+			for k := range r.spec.Sites {
+				order = append(order, k)
+			}
+		}
+		for _, si := range order {
 			st := &r.spec.Sites[si]
 			if st.PkgLevel == "" && len(st.PkgLines) == 0 {
 				continue
